@@ -305,6 +305,9 @@ func c25FragDoc(s string, env func(string) string) int {
 	if !utf8.ValidString(s) {
 		return 0 // the parser rejects invalid UTF-8; not modelled
 	}
+	if c25ContRisk(s) {
+		return 0
+	}
 	s = c25JoinLines(s)
 	f := &c25Frag{env: env}
 	i := 0
@@ -1006,6 +1009,7 @@ type c25Job struct {
 	got    string
 	excl   string
 	corpus bool
+	known  bool
 }
 
 func c25(c *Ctx) {
@@ -1016,6 +1020,7 @@ func c25(c *Ctx) {
 		"{x y e u n m sp q HOME x1 _v} with empty, blank-containing and non-numeric values; non-trivial = the string has an expansion; distinct by exact tokens"
 	debug := os.Getenv("C25_DEBUG") != ""
 	var jobs []c25Job
+	knownNext := false
 	emit := func(cs c25Case, fields, corpus bool) {
 		toks := cs.tokens()
 		var got string
@@ -1045,6 +1050,15 @@ func c25(c *Ctx) {
 			tags = append(tags, kind+":"+strings.Fields(got)[0])
 		}
 		excl := c25Excl(cs, fields)
+		if excl == "" && !fields && strings.Contains(cs.s, "\\\n") {
+			// bash joins continuation lines first: the joined text must be free of excluded constructs
+			// too (`$\<newline>$` is `$$`), and a continuation inside a `${` `$((` `))` token is a finding
+			if c25ContRisk(cs.s) {
+				excl = "continuation-inside-dollar-token"
+			} else {
+				excl = c25Excl(c25Case{s: c25BashJoin(cs.s), env: cs.env}, false)
+			}
+		}
 		if excl != "" {
 			tags = append(tags, "excl:"+excl)
 		}
@@ -1059,14 +1073,30 @@ func c25(c *Ctx) {
 		if got == "panic" && excl == "" {
 			c.Fail(kind+" "+toks, fmt.Sprintf("panic on %q", cs.s))
 		}
-		jobs = append(jobs, c25Job{cs: cs, fields: fields, got: got, excl: excl, corpus: corpus})
+		jobs = append(jobs, c25Job{cs: cs, fields: fields, got: got, excl: excl, corpus: corpus, known: corpus && knownNext})
 	}
 	for _, l := range c.CorpusLines() {
+		// `known ex|fl …`: witness of an open finding, always compared; `ex|fl …`: seed or replayed input,
+		// compared unless it lies in an exclusion region
 		f := strings.Fields(l)
+		known := len(f) > 0 && f[0] == "known"
+		if known {
+			f = f[1:]
+		}
+		if len(f) == 0 {
+			continue
+		}
+		switch f[0] { // a replay file may carry op lines: same tokens
+		case "expand", "specexpand":
+			f[0] = "ex"
+		case "fields", "specfields":
+			f[0] = "fl"
+		}
 		if len(f) < 2 || (f[0] != "ex" && f[0] != "fl") {
 			continue
 		}
 		if cs, ok := c25Parse(f[1:]); ok {
+			knownNext = known
 			emit(cs, f[0] == "fl", true)
 		}
 	}
@@ -1097,8 +1127,10 @@ func c25(c *Ctx) {
 		if j.got == "err cmdsubst" || j.got == "err readonly" {
 			continue
 		}
-		if j.corpus {
+		if j.known || j.corpus && j.excl == "" {
 			sel = append(sel, i)
+		} else if j.corpus {
+			c.Hist["corpus-in-excluded-region"]++
 		} else if j.excl == "" && n < nshell {
 			sel = append(sel, i)
 			n++
@@ -1183,6 +1215,43 @@ func c25JoinLines(s string) string {
 		}
 		sb.WriteByte(b)
 		prevBS = false
+	}
+	return sb.String()
+}
+
+// c25ContRisk: a line continuation (lexer rule) directly after `$`, `(` or `)` — twin of contRisk.
+func c25ContRisk(s string) bool {
+	prevBS := false
+	var prev byte
+	for i := 0; i < len(s); i++ {
+		b := s[i]
+		if b == '\\' && !prevBS && i+1 < len(s) && s[i+1] == '\n' {
+			if prev == '$' || prev == '(' || prev == ')' {
+				return true
+			}
+			i++
+			prevBS = false
+			continue
+		}
+		prevBS = b == '\\'
+		prev = b
+	}
+	return false
+}
+
+// c25BashJoin: bash's removal of backslash-newline pairs in an unquoted here-document.
+func c25BashJoin(s string) string {
+	var sb strings.Builder
+	for i := 0; i < len(s); i++ {
+		if s[i] == '\\' && i+1 < len(s) {
+			if s[i+1] == '\n' {
+				i++
+				continue
+			}
+			sb.WriteByte(s[i])
+			i++
+		}
+		sb.WriteByte(s[i])
 	}
 	return sb.String()
 }
